@@ -69,16 +69,14 @@ func doAclCheck(method string, path string, token *jwt.Token, core *security.Ser
 		return echo.NewHTTPError(http.StatusForbidden, "user does not have permission")
 	}
 
-	// get the method
-	action := "read"
-	if method == "DELETE" || method == "POST" {
-		action = "write"
+	// get the method: everything that is not a safe read method needs write
+	action := "write"
+	if method == http.MethodGet || method == http.MethodHead || method == http.MethodOptions {
+		action = "read"
 	}
 
-	for _, ac := range acl {
-		if core.CheckGranted(ac, path, action) {
-			return nil
-		}
+	if core.IsGranted(acl, path, action) {
+		return nil
 	}
 
 	return echo.NewHTTPError(http.StatusForbidden, "user does not have permission")
